@@ -32,6 +32,8 @@ fn op_on<S: Store>(case: &Value) -> Value {
             }
         }
         let i = d.push_instruction(ins, operand).map_err(e)?;
+        // something to continue with: the runtime only moves the cursor when a next instruction exists
+        d.push_instruction(garnish_lang::Instruction::EndExpression, None).map_err(e)?;
         for a in &built {
             d.push_register(*a).map_err(e)?;
         }
@@ -96,7 +98,9 @@ fn matrix_on<S: Store>(case: &Value) -> Value {
         }
         let mut b_addr = vec![0usize; vals.len()];
         for (i, v) in vals.iter().enumerate().rev() {
-            b_addr[i] = make(&mut d, v)?;
+            // identical sub-values inside one value share an address in set B
+            let mut cache = std::collections::HashMap::new();
+            b_addr[i] = crate::val::make_shared(&mut d, v, &mut cache)?;
         }
         let mut ins_at = vec![];
         for n in &names {
@@ -111,8 +115,8 @@ fn matrix_on<S: Store>(case: &Value) -> Value {
             let mut ab = vec![];
             let mut aa = vec![];
             for &i in &rows {
-                let mut row_ab = String::new();
-                let mut row_aa = String::new();
+                let mut row_ab: Vec<String> = vec![];
+                let mut row_aa: Vec<String> = vec![];
                 for j in 0..vals.len() {
                     for (which, other) in [(0, b_addr[j]), (1, a_addr[j])] {
                         d.push_register(a_addr[i]).map_err(e)?;
@@ -140,7 +144,7 @@ fn matrix_on<S: Store>(case: &Value) -> Value {
                         if d.reg_addrs().is_empty() {
                             d.push_register(sentinel).map_err(e)?;
                         }
-                        if which == 0 { row_ab.push(c) } else { row_aa.push(c) }
+                        if which == 0 { row_ab.push(c.to_string()) } else { row_aa.push(c.to_string()) }
                     }
                 }
                 ab.push(json!(row_ab));
